@@ -21,8 +21,10 @@
 //     access through a nil pointer makes the result `none` (a panic);
 //   - statements: if / else, expression-less and tagged switch (no
 //     fallthrough), return (also naked), :=, =, op=, ++, --, var, assignments
-//     to fields of the receiver or of local struct values; statements after a
-//     branching statement are duplicated into both branches;
+//     to fields of the receiver or of local struct values; a pointer-to-struct
+//     parameter whose fields are assigned is returned (after the receiver)
+//     with its final value; statements after a branching statement are
+//     duplicated into both branches;
 //   - expressions: literals, constants (folded with go/types, so imported
 //     constants such as dns.MaxMsgSize are resolved from the dependency's
 //     export data), parameters, locals, field selectors, arithmetic,
@@ -414,6 +416,7 @@ type fctx struct {
 	recv        string // receiver variable name ("" if none)
 	recvVal     bool   // pointer receiver modelled as the struct itself (recv_nonnil)
 	recvMut     bool   // receiver is a pointer whose fields are assigned
+	paramMut    []string // pointer-to-struct parameters whose fields are assigned (returned after the receiver)
 	results     []*types.Var
 	named       bool
 	opaque      []string // extra parameters "name : Type"
@@ -1181,6 +1184,7 @@ func (c *fctx) ret(vals []string) string {
 	if c.recvMut {
 		parts = append(parts, leanIdent(c.recv))
 	}
+	parts = append(parts, c.paramMut...)
 	parts = append(parts, vals...)
 	if c.trace {
 		parts = append(parts, "tr")
@@ -1641,6 +1645,27 @@ func (t *translator) translate(sp TrFunc) (fo *funcOut) {
 		}
 		resTypes = append(resTypes, t.leanType(rty))
 	}
+	// a pointer-to-struct parameter whose fields are assigned: its final value is returned too
+	for i := 0; i < sig.Params().Len(); i++ {
+		v := sig.Params().At(i)
+		if lt := t.leanType(v.Type()); isPtrStruct(v.Type()) && strings.HasPrefix(lt, "(Option S_") {
+			found := false
+			ast.Inspect(fd.Body, func(n ast.Node) bool {
+				if as, ok := n.(*ast.AssignStmt); ok {
+					for _, l := range as.Lhs {
+						if se, ok := l.(*ast.SelectorExpr); ok && identOf(se.X) != nil && c.p.info.Uses[identOf(se.X)] == types.Object(v) {
+							found = true
+						}
+					}
+				}
+				return true
+			})
+			if found {
+				c.paramMut = append(c.paramMut, leanIdent(v.Name()))
+				resTypes = append(resTypes, lt)
+			}
+		}
+	}
 	for i := 0; i < sig.Results().Len(); i++ {
 		v := sig.Results().At(i)
 		c.results = append(c.results, v)
@@ -1770,6 +1795,8 @@ func runTranslator(specDir, outDir, harness, modfile string) error {
 	}
 	return nil
 }
+
+func identOf(e ast.Expr) *ast.Ident { id, _ := e.(*ast.Ident); return id }
 
 func quoteList(xs []string) string {
 	var q []string
